@@ -1,4 +1,5 @@
 import OrsoVerif.Model.Wire
+import OrsoVerif.Drv.C02
 import OrsoVerif.Drv.C03
 import OrsoVerif.Drv.C04
 
@@ -6,6 +7,7 @@ open Wire
 
 def dispatch (prop op : String) (args : List PyVal) : Option (List PyVal) :=
   match prop with
+  | "C02" => Drv.C02.handle op args
   | "C03" => Drv.C03.handle op args
   | "C04" => Drv.C04.handle op args
   | _ => none
